@@ -343,18 +343,31 @@ func DriverMain(p *Prop, tier string) int {
 		code int
 		log  string
 	}
-	results := make([]wres, n)
+	// worker slots: n from this binary, plus (optionally) nAlt from the alternate-architecture build
+	alt := os.Getenv("VERIF_BIN_ALT")
+	nAlt := 0
+	if p.AltArch && alt != "" {
+		nAlt = n / 2
+		if nAlt < 1 {
+			nAlt = 1
+		}
+	}
+	results := make([]wres, n+nAlt)
 	runWorker := func(k int, trace bool) wres {
+		bin, shard, of := self, k, n
+		if k >= n {
+			bin, shard, of = alt, k-n, nAlt
+		}
 		out := filepath.Join(scratch, fmt.Sprintf("w%d.json", k))
 		os.Remove(out)
 		os.Remove(out + ".hang")
-		args := []string{"worker", p.ID, "--tier", tier, "--seed", fmt.Sprint(seed), "--shard", fmt.Sprint(k), "--n", fmt.Sprint(n),
+		args := []string{"worker", p.ID, "--tier", tier, "--seed", fmt.Sprint(seed), "--shard", fmt.Sprint(shard), "--n", fmt.Sprint(of),
 			"--out", out, "--deadline", fmt.Sprint(deadline)}
 		tr := filepath.Join(scratch, fmt.Sprintf("w%d.trace", k))
 		if trace {
 			args = append(args, "--trace", tr)
 		}
-		cmd := exec.Command(self, args...)
+		cmd := exec.Command(bin, args...)
 		cmd.Env = append(os.Environ(), "VERIF_WORKER_SCRATCH="+filepath.Join(scratch, fmt.Sprintf("ws%d", k)))
 		os.MkdirAll(filepath.Join(scratch, fmt.Sprintf("ws%d", k)), 0755)
 		var buf bytes.Buffer
@@ -396,7 +409,7 @@ func DriverMain(p *Prop, tier string) int {
 	}
 
 	var wg sync.WaitGroup
-	for k := 0; k < n; k++ {
+	for k := 0; k < n+nAlt; k++ {
 		wg.Add(1)
 		go func(k int) {
 			defer wg.Done()
@@ -499,6 +512,12 @@ func DriverMain(p *Prop, tier string) int {
 		"counters":                      merged.Counters,
 		"enumerated_cases":              merged.Cases,
 		"workers":                       n,
+	}
+	if nAlt > 0 {
+		cov["alt_arch_workers"] = nAlt
+	} else if p.AltArch {
+		cov["alt_arch_workers"] = 0
+		merged.Notes = append(merged.Notes, "alternate-architecture (GOARCH=386) workers not run: VERIF_BIN_ALT unset")
 	}
 	if merged.Capped {
 		cov["cap"] = merged.CapNote
